@@ -4,7 +4,7 @@ set -u
 log=/verif/findings/confirm.log; : > $log
 export CARGO_NET_OFFLINE=true
 for which in pre post; do
-  if [ $which = pre ]; then rev=e043778; else rev=HEAD; fi
+  if [ $which = pre ]; then rev=e043778; else rev=HEAD; fi      # (F8 was found later: its pre-fix tree is b50bed1, which e043778 also fails)
   wt=/tmp/find-$which
   git -C /repo worktree remove --force $wt 2>/dev/null
   git -C /repo worktree add -q --detach $wt $rev || exit 3
@@ -13,9 +13,11 @@ for which in pre post; do
   cp /verif/findings/roles_findings.rs $wt/node/libs/roles/tests/verif_findings.rs
   cp /verif/findings/protobuf_findings.rs $wt/node/libs/protobuf/tests/verif_findings.rs
   cat /verif/findings/mux_finding_f4.rs >> $wt/node/components/network/src/mux/tests/mod.rs
+  (cd $wt && git apply /verif/findings/protobuf_finding_f8.diff)      # F8: a unit test inside the protobuf crate (uses its test message A)
   echo "===== $which ($rev) =====" >> $log
   (cd $wt/node && cargo test -p zksync_consensus_roles --offline -j 6 --test verif_findings 2>&1 | grep -E "^test |test result|panicked at" ) >> $log
   (cd $wt/node && cargo test -p zksync_protobuf --offline -j 6 --test verif_findings 2>&1 | grep -E "^test |test result|panicked at" ) >> $log
+  (cd $wt/node && cargo test -p zksync_protobuf --offline -j 6 --lib -- f8_ 2>&1 | grep -E "^test |test result|panicked at" ) >> $log
   (cd $wt/node && timeout 900 cargo test -p zksync_consensus_network --offline -j 6 verif_f4 2>&1 | grep -E "^test |test result|panicked at|^error|signal" | head -8 ) >> $log
   git -C /repo worktree remove --force $wt
 done
